@@ -71,7 +71,7 @@ EvSuggest(c, keys, consts, types) ==
 
 \* suggest() returned None ("nothing left")
 EvNone ==
-  /\ flags' = flags \cup Flag(~(cf.finite /\ Cardinality(suggested) >= SpaceSize) \/ queue # <<>>, "none_premature")
+  /\ flags' = flags \cup Flag((cf.norepeat /\ ~(cf.finite /\ Cardinality(suggested) >= SpaceSize)) \/ queue # <<>>, "none_premature")
   /\ done' = TRUE
   /\ UNCHANGED <<cf, queue, suggested, nsug>>
 
